@@ -545,6 +545,24 @@ def ieval(ft, t, env, assume=None, _nested=False):
         return ieval(ft, t[2][0], env, assume, _nested)
     if tag == "call" and isinstance(t[1], str) and len(t[2]) == 1 and t[1].split("::")[-1] in ("deref", "as_slice", "as_ref", "borrow", "clone"):
         return ieval(ft, t[2][0], env, assume, _nested)      # views of the same value
+    if tag == "call" and isinstance(t[1], str) and t[1].split("::")[-1] in ("any", "all") and len(t[2]) == 2:
+        # any / all over a completely known sequence with a closure predicate: evaluate the predicate per element
+        seq = _cval(ft, t[2][0], env, assume, _nested)
+        clos = t[2][1]
+        while clos[0] in ("ref", "deref"):
+            clos = clos[2] if clos[0] == "ref" else clos[1]
+        if not isinstance(seq, (list, tuple)) or clos[0] != "agg" or clos[1] != "closure":
+            raise Undetermined(t[1].split("::")[-1])
+        caps = []
+        for o in clos[3]:
+            v = _cval(ft, o, env, assume, _nested)
+            if v is None:
+                raise Undetermined("closure capture")
+            caps.append(v)
+        res = []
+        for el in seq:
+            res.append(closure_eval(ft.facts, clos[2], caps, [el]))
+        return int(any(res)) if t[1].endswith("any") else int(all(res))
     if tag == "call" and isinstance(t[1], str):
         name = t[1]
         args = [ieval(ft, a, env, assume, _nested) for a in t[2]] if not name.endswith("unwrap_or") else None
@@ -588,7 +606,7 @@ def _cval(ft, t, env, assume=None, _nested=True):
         if t[0] == "cast" and t[1] in ("PointerCoercion", "Unsize", "PtrToPtr"):
             t = t[2]
             continue
-        if t[0] == "call" and isinstance(t[1], str) and len(t[2]) == 1 and t[1].split("::")[-1] in ("as_slice", "deref", "as_ref", "borrow", "clone", "to_vec"):
+        if t[0] == "call" and isinstance(t[1], str) and len(t[2]) == 1 and t[1].split("::")[-1] in ("as_slice", "deref", "as_ref", "borrow", "clone", "to_vec", "iter", "into_iter"):
             t = t[2][0]
             continue
         if t[0] == "promoted":
@@ -739,10 +757,20 @@ def _counter_loop(ft, lp):
     """`let mut j = a; while j < E { ..; j += 1 }` described like `for j in a..E`: item = the counter as seen in the
     body, source = the Range a..E.  Only when the header tests `j < E` and every way back to the header adds exactly 1."""
     head = lp.head
-    tm = ft.blocks[head]["term"]
+    # the guard may follow the header after straight-line blocks (`while i < v.len()` evaluates len() first)
+    gb = head
+    for _ in range(6):
+        tm = ft.blocks[gb]["term"]
+        if tm["k"] == "switch":
+            break
+        succ = [x for x in ft.cfg.succ[gb]]
+        if len(succ) != 1 or succ[0] not in lp.body or tm["k"] not in ("call", "goto", "assert"):
+            return
+        gb = succ[0]
+    tm = ft.blocks[gb]["term"]
     if tm["k"] != "switch":
         return
-    d = ft.switch_term(head)
+    d = ft.switch_term(gb)
     if not (d[0] == "bin" and d[1] in ("Lt", "Gt")):
         return
     j, E = (d[2], d[3]) if d[1] == "Lt" else (d[3], d[2])
@@ -776,8 +804,8 @@ def _counter_loop(ft, lp):
         return
     lp.counter = True
     lp.item = j
-    lp.source = ("agg", "adt", "std::ops::Range", (inits[0], E), ("start", "end"))
-    lp.item_switch = head
+    lp.source = ("agg", "adt", "std::ops::Range::<usize>", (inits[0], E), ("start", "end"))
+    lp.item_switch = gb
     lp.some_succ = true_succ
     lp.done_succ = false_succ
 
@@ -852,7 +880,7 @@ def call_eval(facts, path, argvals):
     """value returned by local function `path` for concrete small-domain arguments, obtained by evaluating its
     MIR-derived return formula (finite-domain abstract evaluation; nothing of the crate is executed)"""
     cft = fn_terms(facts, path)
-    env = {("param", i + 1): v for i, v in enumerate(argvals)}
+    env = {("param", i + 1): _tup(v) for i, v in enumerate(argvals)}
     extra = assumptions_by_eval(cft, env)
     feas = feasible_blocks(cft, extra)
     vals = set()
@@ -863,6 +891,27 @@ def call_eval(facts, path, argvals):
             vals.add(ieval(cft, leaf, env, extra))
     if len(vals) != 1:
         raise Undetermined("call %s%s -> %s" % (path, tuple(argvals), sorted(vals)))
+    return vals.pop()
+
+
+def closure_eval(facts, cpath, captured, argvals):
+    """value returned by closure body `cpath` for known captured values and arguments (finite-domain evaluation of its
+    MIR-derived return formula)"""
+    cft = fn_terms(facts, cpath)
+    env = {("param", i + 2): _tup(v) for i, v in enumerate(argvals)}
+    for i, v in enumerate(captured):
+        env[("field", ("deref", ("param", 1)), i)] = _tup(v)
+        env[("field", ("param", 1), i)] = _tup(v)
+    extra = assumptions_by_eval(cft, env)
+    feas = feasible_blocks(cft, extra)
+    vals = set()
+    for rb in cft.return_blocks():
+        if rb not in feas:
+            continue
+        for leaf in leaves_under(cft, cft.return_term(rb), extra):
+            vals.add(ieval(cft, leaf, env, extra))
+    if len(vals) != 1:
+        raise Undetermined("closure %s -> %s" % (cpath, sorted(vals)))
     return vals.pop()
 
 
@@ -1023,3 +1072,123 @@ def option_default(ft, t):
                 if a[0] == "payload" and a[1] == "Some":
                     return a[2], b
     return None
+
+
+# ---------------------------------------------------------------------- symbolic k-th item of an iterator expression
+
+KSYM = ("sym", "k")
+
+
+def seq_nth(ft, src, depth=0):
+    """(item, count): the k-th item an iterator expression yields, as a term over the symbol KSYM, and how many items
+    there are (a term, or None when unknown).  Understands ranges, slices / vectors (elements as ('elem', collection,
+    index)), sub-slices v[a..b], iter / into_iter / copied / cloned / by_ref, enumerate and zip.  None otherwise."""
+    if depth > 8:
+        return None
+    x = src
+    while x[0] in ("ref", "deref"):
+        x = x[2] if x[0] == "ref" else x[1]
+    if x[0] == "agg" and isinstance(x[2], str) and x[2].startswith("std::ops::Range::") and len(x[3]) == 2:
+        a, b = x[3]
+        return ("bin", "Add", a, KSYM), ("bin", "Sub", b, a)
+    if x[0] == "call" and isinstance(x[1], str) and x[2]:
+        short = x[1].split("::")[-1]
+        if short in ("into_iter", "iter", "iter_mut", "copied", "cloned", "by_ref", "as_slice", "deref"):
+            return seq_nth(ft, x[2][0], depth + 1)
+        if short == "enumerate":
+            r = seq_nth(ft, x[2][0], depth + 1)
+            return None if r is None else (("agg", "tuple", "", (KSYM, r[0]), ()), r[1])
+        if short == "zip" and len(x[2]) == 2:
+            r1, r2 = seq_nth(ft, x[2][0], depth + 1), seq_nth(ft, x[2][1], depth + 1)
+            if r1 is None or r2 is None:
+                return None
+            return ("agg", "tuple", "", (r1[0], r2[0]), ()), r1[1]
+        if short in ("index", "index_mut") and len(x[2]) == 2:
+            rng = x[2][1]
+            while rng[0] in ("ref", "deref"):
+                rng = rng[2] if rng[0] == "ref" else rng[1]
+            if rng[0] == "agg" and isinstance(rng[2], str) and rng[2].startswith("std::ops::Range::") and len(rng[3]) == 2:
+                base = x[2][0]
+                while base[0] in ("ref", "deref"):
+                    base = base[2] if base[0] == "ref" else base[1]
+                return ("elem", strip_site(base), ("bin", "Add", rng[3][0], KSYM)), ("bin", "Sub", rng[3][1], rng[3][0])
+            return None
+    if x[0] in ("phi", "param", "escaped") or (x[0] == "call" and isinstance(x[1], str)):
+        ty = ft.tyof(x) or ""
+        if "Vec<" in ty or ty.lstrip("&").startswith("["):
+            return ("elem", strip_site(x), KSYM), None
+    return None
+
+
+def subst_terms(t, mapping):
+    """replace sub-terms (compared site-free) according to mapping {stripped term: replacement}"""
+    if not isinstance(t, tuple) or not t:
+        return t
+    k = strip_site(t)
+    if k in mapping:
+        return mapping[k]
+    if t[0] == "field" and isinstance(t[1], tuple):
+        b = subst_terms(t[1], mapping)
+        if b[0] == "agg" and isinstance(t[2], int) and t[2] < len(b[3]):
+            return b[3][t[2]]
+        if b[0] == "agg" and str(t[2]).isdigit() and int(t[2]) < len(b[3]):
+            return b[3][int(t[2])]
+        return ("field", b, t[2])
+    if t[0] == "deref":
+        b = subst_terms(t[1], mapping)
+        return b if b[0] in ("elem", "bin", "sym", "agg") else ("deref", b)
+    return tuple(subst_terms(x, mapping) for x in t)
+
+
+def field_of(ft, t, name, _seen=None, _depth=0):
+    """value of field `name` of a struct-valued term: through aggregates, field updates (`x.f = v`), borrows and joins
+    (a join must give the same value on every way in; a loop-carried struct refers to itself and is skipped there)"""
+    from .terms import mk_field
+    _seen = _seen if _seen is not None else set()
+    if _depth > 30:
+        return None
+    while t[0] in ("ref", "deref"):
+        t = t[2] if t[0] == "ref" else t[1]
+    if t[0] == "agg" and t[4] and name in t[4]:
+        return t[3][t[4].index(name)]
+    if t[0] == "update":
+        proj = t[2]
+        if len(proj) == 1 and proj[0][0] == "field":
+            if proj[0][1] == name:
+                return t[3]
+            return field_of(ft, t[1], name, _seen, _depth + 1)
+        return None
+    if t[0] == "phi" and t[1] == ft.path:
+        if t in _seen:
+            return ("self",)
+        _seen.add(t)
+        vals = []
+        for o in ft.phi_operands(t).values():
+            v = field_of(ft, o, name, _seen, _depth + 1)
+            if v is None:
+                return None
+            if v != ("self",):
+                vals.append(v)
+        if not vals:
+            return ("self",)
+        keys = {strip_site(v) for v in vals}
+        return vals[0] if len(keys) == 1 else None
+    return None
+
+
+def return_sites(ft):
+    """[(block, term)]: every value the function can return together with the block where it is decided (joins at the
+    single MIR return block are opened up), so that the conditions guarding each result can be asked for"""
+    out = []
+    seen = set()
+
+    def go(t, b, depth):
+        if t[0] == "phi" and t[1] == ft.path and t not in seen and depth < 12:
+            seen.add(t)
+            for p, o in ft.phi_operands(t).items():
+                go(o, p, depth + 1)
+        else:
+            out.append((b, t))
+    for rb in ft.return_blocks():
+        go(ft.return_term(rb), rb, 0)
+    return out
